@@ -38,7 +38,7 @@ CLAIMED["C03"] = ("proof", DATA_NOTE + "C03: membership iff for times / lead tim
     "strictly ascending dimensions, -obsrange masking, empty selection never numeric.", "7 C03", "Coq proof over hand model + correspondence check")
 CLAIMED["C04"] = ("proof", DATA_NOTE + "C04: get_scores delivers numbers only or the single NaN, kept positions valid in every requested field, "
     "missing anywhere => missing everywhere, non-finite anomaly missing; missing-vs-deleted metamorphic relation, reader encodings and "
-    "all-missing slices for a metric sample checked on the implementation.", "7 C04", "Coq proof over hand model + correspondence check")
+    "all-missing slices for a metric sample checked on the implementation, also when the same Data object is asked a second time (cached answer) with every kind of aggregator.", "7 C04", "Coq proof over hand model + correspondence check")
 CLAIMED["C14"] = ("proof", DATA_NOTE + "C14: obs/fcst become value (-|/) climatology cell by cell, other fields untouched, missing climatology or "
     "non-finite quotient drops the case for every input, climatology looked up by coordinates and never counted as an input; "
     "-c X versus X as extra input compared on the implementation.", "7 C14", "Coq proof over hand model + correspondence check")
@@ -56,7 +56,7 @@ CLAIMED["C18"] = ("proof", "Stateful executable Coq model of Data.get_scores (Mo
     "witness (reproduced on the implementation, repaired by fix c0f782e). TIE: the model is evaluated by vm_compute and compared with ONE "
     "real verif.data.Data object over the same histories (exhaustive to length 2 / 3 over a 12-request menu per dataset plus random "
     "histories to length 10; arrays at return time AND the same objects at the end of the history); falsifier: every response vs a fresh "
-    "Data, earlier arrays / inputs unchanged, repeatability.",
+    "Data, earlier arrays / inputs unchanged (obs, fcst, pit, ensemble, stored threshold and quantile arrays, other fields), repeatability; fields DERIVED from the ensemble (quantile levels, threshold probabilities) mixed with member requests are checked on the implementation only (not in the model).",
     "7 C18", "Coq refinement proof of a hand-written state-machine model (invariant induction over histories) + exhaustive-history correspondence check")
 TRANS_NOTE = ("Python-ast -> Gallina translator regenerates the definitions from /repo on every run (fail-closed); theorems over the "
     "extended reals XR (NaN | -inf | +inf | finite real, IEEE special-value rules, exact finite arithmetic); the same generated text is run on "
@@ -70,7 +70,7 @@ CLAIMED["C08"] = ("proof", TRANS_NOTE + "C08: event probability from the CDF for
     "complement symmetry, every probability in [0,1] lies in exactly one of the 10 bins (exact double edges, top edge 1.001), ensemble-derived "
     "probability = fraction of present members (in [0,1], missing members ignored, all missing => NaN), pinball terms non-negative. The "
     "binned reliability/resolution terms are generated per bin + hand glue (Model/Brier.v) and validated on floats; the Murphy "
-    "decomposition is checked as an identity on every run (its proof is not done: partial). Added: QuantileCoverage translated (three branches); theorems pin the lower/upper inclusion flag to its own end of the interval; falsifier for metrics that write into the arrays cached in the dataset.", "7 C08", "Coq proof over translated source + translation validation")
+    "decomposition is PROVED per bin (C08_murphy_identity_per_bin: for forecasts equal to the bin value, sum (p-o)^2 = n(p-mean)^2 - n(mean-obar)^2 + sum (obar-o)^2, any number of cases) and the whole-score identity BS = REL - RES + UNC is checked on every run on inputs whose forecasts are the bin centres. Added: QuantileCoverage translated (three branches); theorems pin the lower/upper inclusion flag to its own end of the interval; falsifier for metrics that write into the arrays cached in the dataset. Theorem on the regenerated get_p: a missing observation has a missing event indicator (never \"occurred\"), a present one 0 or 1; every probabilistic metric is NaN on a day without observations (real Data). Quantile-based scores (Spread, SpreadSkillRatio, QuantileScore, QuantileCoverage) through the real Data against the definitions on the file's quantile columns over the jointly valid cases, with stored levels that differ from the requested ones by rounding only (single-precision coordinate, computed level) and an ensemble present.", "7 C08", "Coq proof over translated source + translation validation")
 CLAIMED["C15"] = ("proof", TRANS_NOTE + "C15: every generated aggregator is its statistic (mean, sum, meanabs != absmean, count, min, max, range, change, "
     "abschange, variance, std, iqr, quantile with level in [0,1]); -T: hand model Model/Window.v of preaggregate_leadtime/_time with the "
     "theorem that for every strictly increasing grid the aggregated positions are exactly the trailing window (l-h, l] (irregular spacing, "
@@ -84,7 +84,7 @@ CLAIMED["C13"] = ("proof", "Option tables GENERATED from driver.run's AST on eve
     "distinct variables, files keeping their order), --config tokens are appended, unknown flag / missing value / missing config name / "
     "range arity are rejected; vector syntax: a:s:b has k+1 elements ending exactly at b when hit (over Q, unbounded k). Ties: "
     "Model/ParseNumbers.v vs util.parse_numbers on a grid of strings incl. combinations and date ranges; Model/Cli.v composed with "
-    "Model/Data.v vs `verif ... --list-times --list-locations` on generated text files, random option subsets/orders/--config. Added: two --config files one after the other (theorem + tie), --list-dates for times that are not on the hour (model date_clock, theorem C13_list_dates_clock for every unix time, tied to the printed lines).",
+    "Model/Data.v vs `verif ... --list-times --list-locations` on generated text files, random option subsets/orders/--config. Added: two --config files one after the other (theorem + tie), --list-dates for times that are not on the hour (model date_clock, theorem C13_list_dates_clock for every unix time, tied to the printed lines). -agg: every documented aggregator name and the numbers 0..1 (incl. 0 and 1) give the documented statistic per slice for standard metrics AND the aggregating special output obsfcst, wherever the option stands; unknown names are rejected for special outputs too.",
     "7 C13", "Coq proof over translated option tables + hand model with correspondence check")
 CLAIMED["C12"] = ("proof", "Hand model Model/Table.v of Standard._get_x_y and the text/csv writers with axiom-free theorems for any number of inputs and "
     "slices: one row per slice in axis order, one column per input in command-line order, each cell is that input's score on that "
@@ -127,7 +127,7 @@ CLAIMED["C19"] = ("proof", "PARTIAL. GENERATED from /repo on every run (Gen/Gen_
     "class. Whether numpy/matplotlib raise inside a permitted combination is runtime behaviour no Coq model can exhibit: the check "
     "ENUMERATES verif.driver.run over names x 20 -x values x 8 output types x 7 dataset shapes (+ -r/-q/-b/-agg variants) -- a stratified "
     "sample in quick, the full product in thorough or whenever a proof/tie is broken -- and reports every unhandled exception with its argv; "
-    "the model's keep/drop decision is compared with the driver's warnings for every (name, axis) pair. Also GENERATED: which of the six core methods every Output class defines and which one each -type finally calls; theorems: every documented type is routed, class Standard defines all six, every diagram can be plotted; the predicted refusal (explanatory exit) of unsupported types is compared with the driver for every (name, type) pair. Dataset shapes now include inputs with different columns; conditional axes are run with every aggregator variant.",
+    "the model's keep/drop decision is compared with the driver's warnings for every (name, axis) pair. Also GENERATED: which of the six core methods every Output class defines and which one each -type finally calls; theorems: every documented type is routed, class Standard defines all six, every diagram can be plotted; the predicted refusal (explanatory exit) of unsupported types is compared with the driver for every (name, type) pair. Dataset shapes now include inputs with different columns; conditional axes are run with every aggregator variant. Every name is also run with all 8 bin types x (one, three thresholds), with every aggregator name the library knows (incl. the numbers 0, 0.5, 1), with ONE and with THREE input files for every output type, and every (name, axis) on datasets whose missing slice is in the middle / at the start and with a single threshold.",
     "7 C19", "Coq proof over translated gating logic and capability tables + exhaustive enumeration of the real driver (partial)")
 CLAIMED["C17"] = ("proof", "PARTIAL. The chain command line -> driver variable -> Output attribute -> attribute read by verif/output.py is "
     "proved over the option tables GENERATED from /repo on every run (Gen/Gen_cli.v: flag chains, the pl.<attr> = <var> block, every "
@@ -142,15 +142,15 @@ CLAIMED["C17"] = ("proof", "PARTIAL. The chain command line -> driver variable -
     "7 C17", "Coq proof over translated option tables + argument-loop model; figure read-back correspondence check (partial)")
 CLAIMED["C16"] = ("proof", "PARTIAL. Hand-written executable models (coq/Model/Diagrams.v, any NumOps instance) of the defining statistics of "
     "-hist, -sort, obsfcst (lines and shaded bands), qq, scatter points, change, cond, reliability, discrimination, roc, pithist, "
-    "spreadskill, freq, marginal, error, taylor, performance and timeseries, built on the GENERATED interval and contingency code. Theorems (XR, all strictly increasing edges, all "
+    "spreadskill (spread = highest minus lowest requested quantile, whatever the order of -q), freq, marginal, error, taylor, performance, economicvalue and timeseries, built on the GENERATED interval and contingency code. Theorems (XR, all strictly increasing edges, all "
     "values): the np.histogram rule (last bin closed; pithist, reliability, discrimination) and the change rule (first bin closed) put "
     "every value of the closed edge range in exactly one bin; plain half-open bins partition [first,last) and lose the top edge, "
     "(e_i,e_i+1] bins partition (first,last] and lose the bottom edge (the rules the code had before three fix: commits); the obsfcst "
-    "bands pair the i-th lowest with the i-th highest quantile of the same input; the fill polygon covers every valid point. Tie: every "
+    "bands pair the i-th lowest with the i-th highest quantile of the same input; the fill polygon covers every valid point; the -hist shares add up to 100; at every cost-loss ratio of the economic value diagram each case is in exactly one of the two groups (a probability equal to the ratio acts). Tie: every "
     "run executes verif.driver.run on generated 2-3 input files with independent missing cells, reads Line2D data, bar heights and "
     "polygons back from the figure handed to savefig and compares them with the model (vm_compute, float instance) on the arrays the real "
     "Data object returns; one series per input in command-line order is checked; standard line plots are compared with the -type csv "
-    "table of the same command (C12), with -acc against the running sum. NOT modelled: droc, murphy, economicvalue, bsdecomp, igncontrib, fss, "
+    "table of the same command (C12), with -acc against the running sum. NOT modelled: droc, murphy, bsdecomp, igncontrib, fss, "
     "autocorr/autocov, against, invreliability, meteo, maps, rank/impact views, scatter quantile lines.",
     "7 C16", "Coq proof over hand-written diagram models + figure read-back correspondence check (partial)")
 PENDING = {}
